@@ -63,7 +63,7 @@ def _gen_param(rng, depth=0):
 
 
 STRS = ("12", "-3", "5.4", "+7", "0", "1", "2.0", "9007199254740993", "-0.0", "007", "true", "False", "TRUE", "maybe",
-        "abc", "", "in.csv", "nofile.csv", "relwork_x.csv", "relwork/in.csv", "/sim/work_in.csv",
+        "abc", "", "'elev'", '"x"', "''a''", '"\'q\'"', "in.csv", "nofile.csv", "relwork_x.csv", "relwork/in.csv", "/sim/work_in.csv",
         WORK + "/in.csv", WORK + "/nofile.csv", "sub/x.csv", "Float", "Integer", "Positive Float", "Fuzzy", "Complex",
         "r0", "f0", "s0", "pv", "nosuch", "1e3", " 4 ", "0x10", "nan", "1_000")
 
